@@ -102,6 +102,9 @@ type Config struct {
 	// ("%08d|%s" of B and A) instead of JSON: with KeyCompare left nil, order and layer of such keys are
 	// defined by *that* form
 	AltKeyMarshal bool
+	// RawStrings: the configured marshaler writes string elements as their bytes, unquoted (anything else as JSON):
+	// an element's encoding may then be empty (the empty string; with protobuf, a message holding only defaults)
+	RawStrings bool
 	// TwoSlots: the alphabet works on two tree slots (clone either way, modify and persist both, load kept
 	// roots into the second): the structural monitors then also judge versions persisted by trees that
 	// share in-memory nodes with another live tree
